@@ -210,6 +210,36 @@ def srv_frame(opcode, payload=b"", fin=1, rsv=0, mask=None, lenform=None):
     return hdr + bytes(payload)
 
 
+def make_ws_factory(events=(), tail="eof", accepts=None, mask_key=None, **kw):
+    """a connected WebSocket object made by the documented factory `create_connection(url, socket=...)`: the opening
+    handshake really happens (scripted 101 response), then the transport's counters are reset.  Options whose value is
+    falsy are LEFT OUT of the call (their documented default is off)."""
+    import base64
+    import hashlib
+    import os
+    import websocket
+    key_raw = bytes(range(16))
+    acc_ = base64.b64encode(hashlib.sha1(base64.b64encode(key_raw) + b"258EAFA5-E914-47DA-95CA-C5AB0DC85B11").digest()).decode()
+    head = (f"HTTP/1.1 101 Switching Protocols\r\nUpgrade: websocket\r\nConnection: Upgrade\r\n"
+            f"Sec-WebSocket-Accept: {acc_}\r\n\r\n").encode()
+    sock = SimSocket([("chunk", head)] + list(events), tail=tail, accepts=None)
+    opts = {k: v for k, v in kw.items() if v}
+    old = os.urandom
+    os.urandom = lambda k: key_raw[:k]
+    try:
+        ws = websocket.create_connection("ws://example.test/", socket=sock, **opts)
+    finally:
+        os.urandom = old
+    del sock.sent[:]
+    sock.log.clear()
+    sock.calls = sock.send_calls = sock.consumed = 0
+    del sock.recv_sizes[:]
+    sock.accepts, sock.acc_i = (list(accepts) if accepts else None), 0
+    if mask_key is not None:
+        ws.set_mask_key(lambda n: mask_key)
+    return ws, sock
+
+
 def make_ws(events=(), tail="eof", accepts=None, mask_key=None, **kw):
     """a connected WebSocket object on a SimSocket (handshake skipped)."""
     import websocket
